@@ -1,33 +1,11 @@
-"""Per-property configuration of ./check: which facts are re-extracted, which Lean module holds the
-property theorems, which correspondence families run, and the trusted base reported in the evidence."""
-
-TB_COMMON = [
-    "Lean 4.33.0 kernel (lake build; thorough tier re-checks the property module with leanchecker)",
-    "fact extractor /verif/extract (pattern matchers over comment-stripped source; unrecognised form => committed defaults + correspondence only)",
-    "correspondence harness /verif/harness (Rust, calls the real code in-process or over loopback) and the repe_model_* line-protocol drivers",
-    "modelled, not verified: Rust std collections/allocator, 64-bit little-endian target",
-]
-
-PROPS = {
-    "C01": dict(
-        gens=["wire"], props_module="RepeVerif.Props.C01", namespace="Repe.C01", exes=["repe_model_wire"], leanchecker=True,
-        runs=[
-            dict(name="wire", bin="fam_wire", args=["wire"], exe="repe_model_wire", profile="dev"),
-            dict(name="wire-release", bin="fam_wire", args=["wire"], exe="repe_model_wire", profile="release", thorough_only=True),
-        ],
-        trusted_base=TB_COMMON + ["Vec::resize/copy_within/copy_from_slice behave as fill/memmove/copy (std)"],
-        assumptions=["header fields are within their Rust integer widths (Header.InRange) - true of every Rust value",
-                     "48+|query|+|body| < 2^64 for the builder theorems"],
-    ),
-    "C02": dict(
-        gens=["wire"], props_module="RepeVerif.Props.C02", namespace="Repe.C02", exes=["repe_model_wire"], leanchecker=True,
-        death_is_violation=True,
-        runs=[
-            dict(name="parse", bin="fam_wire", args=["parse"], exe="repe_model_wire", profile="dev"),
-            dict(name="parse-release", bin="fam_wire", args=["parse"], exe="repe_model_wire", profile="release", thorough_only=True),
-        ],
-        trusted_base=TB_COMMON + ["allocator: a request >= 2^62 bytes can never be satisfied; try_reserve_exact reports it as an error (std contract, exercised)",
-                                   "requests in (16 MiB, 2^62) are outside the property's quantifier and are not generated"],
-        assumptions=["64-bit usize", "stream = finite byte string then EOF (read_exact semantics); fragmentation does not matter to read_exact"],
-    ),
-}
+"""Collects config/C*.py fragments: PROPS[id] = CONFIG of that fragment. See CONTRIBUTING.md."""
+import importlib.util, os, glob
+_here = os.path.dirname(os.path.abspath(__file__))
+PROPS = {}
+for _p in sorted(glob.glob(os.path.join(_here, "config", "C[0-9]*.py"))):
+    _spec = importlib.util.spec_from_file_location("verif_config_" + os.path.basename(_p)[:-3], _p)
+    _m = importlib.util.module_from_spec(_spec)
+    import sys
+    sys.path.insert(0, os.path.join(_here, "config"))
+    _spec.loader.exec_module(_m)
+    PROPS[os.path.basename(_p)[:-3]] = _m.CONFIG
